@@ -96,7 +96,7 @@ def stmt(op):
 def bounds(tier):
     return {"tables": 5, "kinds": len(KINDS), "spellings": "6 x 6 (schema x table) x 3 (column)", "output_modes": MODES,
             "depth": "1 (all spellings), 2 (all kind/target pairs x 2 modes), 3 (%s)" % (
-                "24^3 + 24^3 triples" if tier == "thorough" else "24^3 triples over the column-list kinds on 2 tables")}
+                "24^3 + 24^3 + 58^3 triples, 24^4 histories of length 4" if tier == "thorough" else "24^3 triples over the column-list kinds on 2 tables")}
 
 
 def gen_cases(tier):
@@ -147,6 +147,12 @@ def gen_cases(tier):
         s3 = [[k, t] for k in D3_KINDS for t in D3_TABS]
         for tri in itertools.product(s3, repeat=3):
             cases.append({"tabs": full, "ops": [x + ["asis", "asis", "asis"] for x in tri]})
+        # every triple over ALL statement kinds on the two same-named tables, and every history of length 4 over the column-list kinds
+        s3a = [[k, t] for k in KINDS for t in D3Q_TABS]
+        for tri in itertools.product(s3a, repeat=3):
+            cases.append({"tabs": ["s1.t", "t", "u"], "ops": [x + ["asis", "asis", "asis"] for x in tri]})
+        for quad in itertools.product(s3q, repeat=4):
+            cases.append({"tabs": ["s1.t", "t"], "ops": [x + ["asis", "asis", "asis"] for x in quad]})
     return cases
 
 
